@@ -62,4 +62,13 @@ PROPS = {
         "assumptions": ["request contents (random samples) are event inputs taken from what the implementation sent"],
         "trusted_base": ["modelled: PeerState transitions, Peers add/remove/get_peers_which_*, SendLastStateProcess, get_last_state(_proof), refresh_all_peers, update_prove_state_to_child"],
     },
+    "C12": {
+        "ops": [("sys", "RunSys", {"quick": 120, "thorough": 2000})],
+        "rule": "the event histories of C11 (incl. forged-child announcements of the header a peer has proven, competing chains, restarts) compared step by "
+                "step with Model/System.v, plus raw-byte cases of the LAST_STATE / LAST_N_HEADERS values compared with Model/StoreCodec.v; oracles: stored "
+                "total difficulty never decreases, stored tip is some peer's proven header, equals the cumulative difficulty of the generated chain, last-N "
+                "are its ancestors, values read back as written; distinct = distinct history / codec input",
+        "assumptions": ["restart = all in-memory state dropped, same RocksDB handle (durability of a completed put is RocksDB's contract)"],
+        "trusted_base": ["modelled: commit_prove_state, update_prove_state_to_child, SendLastStateProcess, Storage::{update,get}_last_state, {update,get}_last_n_headers"],
+    },
 }
